@@ -785,17 +785,19 @@ def monitors(case, sch, start, rows):
 
 
 CHECK_DEF = '''
-Require Import Grist.Model.Schedule.
 (* monomorphic constructors: cheaper to elaborate than nested polymorphic pairs *)
 Record c35case := K { k_tb : table; k_n : nat; k_base : Z; k_start : Z; k_end : option Z; k_count : Z;
                       k_fuel : nat; k_done : bool; k_outs : list Z }.
 Definition R (p : Z) (r : list Z) : Z * list Z := (p, r).
+(* the hand model (tbl_series) and the function generated from the source (Schedule_series) on the same tables *)
 Definition c35_check (c : c35case) : bool :=
   let run := fun fuel => tbl_series (k_tb c) (k_n c) (k_base c) fuel (k_start c) (k_end c) (k_count c) in
+  let gen := fun fuel => Schedule_series (tbl_prims (k_tb c) (k_base c)) (tbl_schedule (k_n c)) fuel
+                           (k_start c) (k_end c) (k_count c) in
   if k_done c then
-    result_eqb (run (k_fuel c)) (Done (k_outs c)) &&
-    match k_fuel c with O => false | S f => is_out_of_fuel (run f) end
-  else result_eqb (run (k_fuel c)) (OutOfFuel (k_outs c)).
+    result_eqb (run (k_fuel c)) (Done (k_outs c)) && result_eqb (gen (k_fuel c)) (Done (k_outs c)) &&
+    match k_fuel c with O => false | S f => is_out_of_fuel (run f) && is_out_of_fuel (gen f) end
+  else result_eqb (run (k_fuel c)) (OutOfFuel (k_outs c)) && result_eqb (gen (k_fuel c)) (OutOfFuel (k_outs c)).
 '''
 
 
@@ -855,11 +857,39 @@ def correspond(ctx):
     ctx.bump('corr:%s' % ('diverging' if status == 'steplimit' else case['stream']))
   ctx.extra['correspondence_cases'] = len(coq)
   ctx.extra['monitored_cases'] = nmon
-  bad = ctx.run_cases('series', [], 'c35_check', coq, shard=150, extra_defs=CHECK_DEF)
+  from harness import c35diff
+  rc, out = core.coq_make(['theories/Lib/SchedDiff.vo'], timeout=600)
+  if rc != 0:
+    raise core.TieBroken('Lib/SchedDiff.v does not build against the regenerated code: %s' % out[-1200:])
+  bad = ctx.run_cases('series', c35diff.IMPORTS, 'c35_check', coq, shard=150, extra_defs=CHECK_DEF)
   for i in bad[:5]:
-    ctx.broken('correspondence:the model of Schedule.series differs from the running generator '
+    ctx.broken('correspondence:the model / the generated code of Schedule.series differs from the running generator '
                '(outputs or number of passes)', 'case %r' % (used[i],))
   ctx.log('correspondence: %d cases (%d monitored), %d differ' % (len(coq), nmon, len(bad)))
+  # differential validation of the translator on the other generated functions
+  schedule = impl()
+  sym = c35diff.sym_cases(schedule, ctx.rng, ctx.n(150, 1500))
+  intervals, slots = c35diff.parser_inputs(schedule, ctx.rng, [c['spec'] for c in cases])
+  intervals = list(dict.fromkeys(intervals))[:ctx.n(300, 5000)]
+  slots = list(dict.fromkeys(slots))[:ctx.n(400, 7000)]
+  icases = [c35diff.interval_case(schedule, x) for x in intervals]
+  scases = [c35diff.slot_case(schedule, t, u) for t, u in slots]
+  for name, chk, cs, src in (('sym', 'sym_check', sym, None), ('interval', 'interval_check', icases, intervals),
+                             ('slot', 'slot_check', scases, slots)):
+    bad = ctx.run_cases(name, c35diff.IMPORTS, chk, cs, shard=400, extra_defs=c35diff.DEFS)
+    for i in bad[:5]:
+      ctx.broken('translation:the generated %s code differs from the running function' % name,
+                 'input %r; case %s' % (src[i] if src else None, cs[i][:600]))
+  extra_parts = ['Jan-15', '1/15', '/15', 'Mon', '10am', '1:30pm', '15:45', ':45', '+1d', '+15w', '+1x', 'x-1', '/', ':5',
+                 '9:5', '+d', 'am', '12AM', 'FEB-3', '0/0', '+0S', 'a-1', '1-1', '+1', 'pm', '9pm', '09:00am']
+  nmonp, badm = c35diff.monitor_parse_hypotheses(
+    schedule, list(dict.fromkeys([p for t, _u in slots for p in t.split()] + extra_parts)))
+  for name, what in badm[:5]:
+    ctx.broken('monitor:%s' % name, 'hypothesis of C35_code_parse_slot_errors fails on the implementation: %r' % (what,))
+  ctx.extra['parse_hypotheses_monitored'] = nmonp
+  ctx.extra['translator_differential'] = {'Schedule.series (on tables)': len(coq), 'Delta methods (symbolic)': len(sym),
+                                          '_parse_interval': len(icases), '_parse_slot + slot parsers': len(scases)}
+  ctx.log('translator differential: sym %d, interval %d, slot %d' % (len(sym), len(icases), len(scases)))
 
 
 def replay_dict(case):
